@@ -30,11 +30,13 @@ guards the import.
 """
 import operator as ops
 from numbers import Integral
+from typing import Union
 
 import z3
 import crosshair.core_and_libs  # noqa: F401  (registers the patches wrapped below)
 import crosshair.core as _core
 from crosshair.libimpl import builtinslib as _bl
+from crosshair.libimpl.builtinslib import SymbolicInt
 from crosshair.statespace import context_statespace
 from crosshair.tracers import NoTracing
 
@@ -94,8 +96,10 @@ def install():
                 prev_and = fn
     if prev_or is None or prev_and is None:     # unknown crosshair layout: leave it alone
         return
+    # NB the handlers are registered for (int | SymbolicInt) operands only, not for
+    # Integral: symbolic *bools* keep CrossHair's own logical &,|,^ handlers
 
-    def or_disjoint(op, a: Integral, b: Integral):
+    def or_disjoint(op, a: Union[int, SymbolicInt], b: Union[int, SymbolicInt]):
         with NoTracing():
             ta, tb = _term(a), _term(b)
             if ta is not None and tb is not None and (ta[1] or tb[1]):
@@ -115,7 +119,7 @@ def install():
                             return _bl.SymbolicInt(x + y)
         return prev_or(op, a, b)
 
-    def and_contiguous(op, a: Integral, b: Integral):
+    def and_contiguous(op, a: Union[int, SymbolicInt], b: Union[int, SymbolicInt]):
         with NoTracing():
             for x, m in ((a, b), (b, a)):
                 if isinstance(x, _bl.SymbolicInt) and isinstance(m, int) \
